@@ -48,5 +48,10 @@ LEVEL_TEXT = ("Machine-checked theorems about the micro-step model of processBlo
               "is tied to the code by killing / failing the real node at every write call of every block of generated "
               "histories, restarting it on the surviving database and diffing every observation, including the number of "
               "write calls per block.")
-LEVEL_NOTE = ("Badger's own crash behaviour is an assumption (faults are injected at the basedb API). The key manager's raw "
-              "storage is compared up to 'usable key shares'; residues are counted in the evidence.")
+LEVEL_NOTE = ("Badger's own crash behaviour is an assumption (faults are injected at the basedb API). The statement is about "
+              "registry state, nonces and the stored key shares USABLE FOR SIGNING (wallet index entry whose account object "
+              "loads): that, the decided store and coverage (every usable share keeps its slashing records) are proved and "
+              "checked. The raw wallet storage is not claimed equal: a crash between SaveAccount and SaveWallet leaves an "
+              "orphaned account object, one between DeleteAccount and SaveWallet a stale index entry, one after RemoveShare and "
+              "before the commit of a block [ClusterReactivated; ValidatorRemoved] a stale slashing record "
+              "(C12_slashing_records_not_reproduced_refuted); these are counted as residue_* in the evidence distribution.")
